@@ -47,7 +47,8 @@ def scen_specs(draw, tier):
             "mesh": draw(st.lists(st.integers(2, 4), min_size=3, max_size=3)), "ms": draw(st.booleans()),
             "pmat": draw(st.sampled_from(["none", "auto"])),
             # now and then a supercell of a few hundred atoms: only the kernels of the constructor (size-dependent parallel regions)
-            "big": draw(st.sampled_from([0] * 7 + [1]))}
+            "big": draw(st.sampled_from([0] * 7 + [1])),
+            "fclayout": draw(st.sampled_from(["array", "array", "fortran", "strided", "list"]))}
 
 
 def scenario(spec, recorder):
@@ -103,7 +104,9 @@ def scenario(spec, recorder):
         with contextlib.redirect_stdout(io.StringIO()):
             show_drift_force_constants(ph.force_constants, primitive=ph.primitive)
         sfc = springs_fc(ph.supercell)
-        ph.force_constants = np.array(sfc[ph.primitive.p2s_map], order="C") if spec["compact"] else sfc
+        from vlib.case import present
+
+        ph.force_constants = present(np.array(sfc[ph.primitive.p2s_map], order="C") if spec["compact"] else sfc, spec.get("fclayout", "array"))
         if spec["nac"] != "none":
             Z, eps = sym_nac(ph.primitive, rng)
             ph.nac_params = {"born": Z, "dielectric": eps, "factor": 14.4, "method": spec["nac"]}
@@ -130,8 +133,11 @@ def scenario(spec, recorder):
         tm.run(0.123, value="I")
         get_all_tetrahedra_relative_grid_address(lang="C")
         q = rng.uniform(-0.5, 0.5, size=3)
-        ph.run_qpoints([q, [0, 0, 0], [0.5, 0, 0]], with_eigenvectors=True, with_dynamical_matrices=False,
+        # also a q-point a few 1e-5 ... 1e-3 1/Angstrom away from the zone centre (just outside the kernels' 'q is zero' tolerance)
+        qtiny = (rng.normal(size=3) * 10 ** rng.uniform(-4.3, -2.6)).tolist()
+        ph.run_qpoints([q, [0, 0, 0], [0.5, 0, 0], qtiny], with_eigenvectors=True, with_dynamical_matrices=False,
                        nac_q_direction=[1, 0, 0] if spec["nac"] != "none" else None)
+        ph.dynamical_matrix.run(qtiny)
         if spec["nac"] != "gonze":
             ddm = DerivativeOfDynamicalMatrix(ph.dynamical_matrix)
             ddm.run(q, lang="C")
